@@ -86,7 +86,7 @@ def _propagate_constants(repo, ref_names):
                     tgt, val = st.targets[0].id, st.value
                 elif isinstance(st, ast.AnnAssign) and isinstance(st.target, ast.Name) and st.value is not None:
                     tgt, val = st.target.id, st.value
-                if tgt is None or not _is_literal(val):
+                if tgt is None or not (_is_literal(val) or (isinstance(val, (ast.Tuple, ast.List)) and len(val.elts) <= 12 and _display(val))):
                     continue
                 qual = '%s:%s%s' % (m.name, (owner._qualname + '.') if owner is not None else '', tgt)
                 if qual in ref_names:
